@@ -1,4 +1,5 @@
 import LlirModel.Writer
+import LlirModel.Generated.Facts
 /-! # C19 — WriteTo honours the io.WriterTo contract, also when the writer fails (property theorems only)
 
 `run W s chunks` models `Module.WriteTo(w)`: one `fw.Fprint*` call per chunk. `WriteTo` returns
@@ -202,6 +203,17 @@ theorem failing_writer (k : Nat) (cs : List Bytes) :
     have hs := fi.err_some (by rw [herr]; rfl)
     refine ⟨by rw [cp.2, hs.1], by omega, ?_⟩
     simp only [Option.isSome_some, true_iff]; exact hs.2
+
+/-- The premises under which `run` models `Module.WriteTo`, decided on facts REGENERATED from the current source
+    (go/ast over ir/module.go and ir/helper.go): the `io.Writer` parameter is used only to build the fmtWriter,
+    WriteTo never touches `fw.w`, `fw.size` or `fw.err` itself and returns exactly `fw.size, fw.err`, and each of
+    Fprint/Fprintf/Fprintln is: guard on the latched error, ONE fmt.F* call on fw.w, `fw.size += int64(n)`, `fw.err = err`. -/
+theorem writer_discipline :
+    Generated.Facts.writeTo_paramUsesOutsideLiteral = 0 ∧ Generated.Facts.writeTo_paramUsesInLiteral = 1 ∧
+    Generated.Facts.writeTo_fwDotW = 0 ∧ Generated.Facts.writeTo_assignsToFw = 0 ∧
+    Generated.Facts.writeTo_returns = Generated.Facts.writeTo_returnsSizeErr ∧ Generated.Facts.writeTo_returns ≥ 1 ∧
+    Generated.Facts.fmtWriter_Fprint_disciplined = true ∧ Generated.Facts.fmtWriter_Fprintf_disciplined = true ∧
+    Generated.Facts.fmtWriter_Fprintln_disciplined = true := by decide
 
 /-- non-vacuity: a 3-chunk module text and a writer failing after 4 bytes -/
 example : (run (failAfter 4) 0 [[1, 2, 3], [4, 5], [6]]).accepted = [1, 2, 3, 4] ∧
